@@ -78,6 +78,8 @@ Proof. exact truncate_then_insert_visible_l. Qed.
 
 Theorem index_missing_column_refuted : hist_class i_empty w8 = 8 /\ i_run i_empty w8 <> s_run s_empty w8.
 Proof. exact index_missing_column_refuted_l. Qed.
+Theorem drop_column_index_file_refuted : hist_class i_empty w12 = 12 /\ i_run i_empty w12 <> s_run s_empty w12.
+Proof. exact drop_column_index_file_refuted_l. Qed.
 Theorem update_resurrects_refuted : hist_class i_empty w5 = 5 /\ i_run i_empty w5 <> s_run s_empty w5.
 Proof. exact update_resurrects_refuted_l. Qed.
 
@@ -117,6 +119,7 @@ Check update_resurrects_refuted : hist_class i_empty w5 = 5 /\ i_run i_empty w5 
 Check rename_indexed_refuted : hist_class i_empty w6 = 6 /\ i_run i_empty w6 <> s_run s_empty w6.
 Check rename_duplicate_refuted : hist_class i_empty w7 = 7 /\ i_run i_empty w7 <> s_run s_empty w7.
 Check index_missing_column_refuted : hist_class i_empty w8 = 8 /\ i_run i_empty w8 <> s_run s_empty w8.
+Check drop_column_index_file_refuted : hist_class i_empty w12 = 12 /\ i_run i_empty w12 <> s_run s_empty w12.
 Check drop_only_column_refuted : hist_class i_empty w9 = 9 /\ i_run i_empty w9 <> s_run s_empty w9.
 
 Print Assumptions ddl_histories_correct.
@@ -136,3 +139,4 @@ Print Assumptions rename_indexed_refuted.
 Print Assumptions rename_duplicate_refuted.
 Print Assumptions index_missing_column_refuted.
 Print Assumptions drop_only_column_refuted.
+Print Assumptions drop_column_index_file_refuted.
